@@ -33,7 +33,7 @@ var defects = []string{"import-cycle", "import-self", "include-cycle", "typedef-
 	"dangling-import", "dangling-include", "dangling-type", "dangling-uses", "dangling-base", "dangling-if-feature", "dangling-prefix", "belongs-to-missing",
 	"typedef-cycle-cross-scope", "grouping-cycle-long", "grouping-cycle-via-uses-augment", "grouping-cycle-via-uses-augment-nested",
 	"feature-cycle-second", "dangling-if-feature-second", "dangling-include-foreign", "dangling-include-foreign-nested",
-	"typedef-cycle-local-case", "typedef-cycle-local-augment", "typedef-cycle-local-uses-augment", "typedef-cycle-local-list",
+	"typedef-cycle-local-case", "typedef-cycle-local-augment", "typedef-cycle-local-uses-augment", "typedef-cycle-local-list", "typedef-cycle-beside-namesake",
 	"dangling-uses-augment-absolute", "illegal-config-in-remote-grouping", "illegal-default-in-remote-grouping",
 	"dangling-unique-last", "dangling-unique-inner", "dangling-unique-skips-choice", "dangling-unique-via-list", "dangling-unique-non-leaf",
 	"odd-extension-prefix", "odd-extension-name", "illegal-grouping-uses-deprecated-grouping", "include-self", "dangling-import-include-chain", "illegal-xpath-prefix-twin",
@@ -142,6 +142,20 @@ func inject(mods []*sg.Mod, d string, pick func(n int) int) {
 			tgt = "/" + host.Prefix + ":cyc-x"
 		}
 		host.Nodes[0].Kids = append(host.Nodes[0].Kids, &sg.Node{Kind: "uses", Name: "cyc-gh", Augments: []*sg.Augment{{Target: tgt, Kids: []*sg.Node{{Kind: "leaf", Name: "cyc-leaf", Type: &sg.TypeSpec{Name: "string"}}}}}})
+	case "typedef-cycle-beside-namesake":
+		// a typedef cycle in one scope, and in a sibling scope (before or behind it) harmless typedefs of the same names
+		in := func(name string) *sg.TypeSpec { return str(name) }
+		good := &sg.Node{Kind: "container", Name: "cyc-p1", Kids: []*sg.Node{{Kind: "container", Name: "cyc-in", Typedefs: []*sg.Typedef{{Name: "cyc-a", Type: in("string")}, {Name: "cyc-b", Type: in("cyc-a")}},
+			Kids: []*sg.Node{{Kind: "leaf", Name: "cyc-l1", Type: in("cyc-b")}}}}}
+		bad := &sg.Node{Kind: "container", Name: "cyc-p2", Kids: []*sg.Node{{Kind: "container", Name: "cyc-in", Typedefs: []*sg.Typedef{{Name: "cyc-a", Type: in("cyc-b")}, {Name: "cyc-b", Type: in("cyc-a")}}}}}
+		if pick(2) == 0 {
+			bad.Kids[0].Kids = append(bad.Kids[0].Kids, &sg.Node{Kind: "leaf", Name: "cyc-l2", Type: in("cyc-a")})
+		}
+		if pick(2) == 0 {
+			host.Nodes[0].Kids = append(host.Nodes[0].Kids, good, bad)
+		} else {
+			host.Nodes[0].Kids = append(host.Nodes[0].Kids, bad, good)
+		}
 	case "typedef-cycle-cross-scope":
 		// a typedef local to a container refers to a module-level typedef that refers back by union membership
 		m.Typedefs = append(m.Typedefs, &sg.Typedef{Name: "cyc-a", Type: &sg.TypeSpec{Name: "union", Members: []*sg.TypeSpec{str("int8"), str("cyc-b")}}},
